@@ -93,15 +93,20 @@ def canon_axioms():
     return [ForAll([u], ocanon(ocanon(u)) == ocanon(u), patterns=[ocanon(u)])]
 
 
+obj_truthy = Function('obj_truthy', U, BoolSort())      # an opaque object may be falsy (empty dict / list, numpy.bool_(False), a class with __bool__)
+
+
 def truthy(v):
-    """python truthiness of a Val (objects and non-empty containers are true)"""
+    """python truthiness of a Val: interpreted on None / bool / numbers / strings / bytes / tuples, UNKNOWN (uninterpreted) on opaque objects --
+    `if x` and `if x is not None` are different programs on `{}` or `[]`"""
     return If(V.is_VBool(v), V.b(v),
            If(V.is_VInt(v), V.i(v) != 0,
            If(V.is_VReal(v), V.r(v) != 0,
            If(V.is_VNone(v), BoolVal(False),
            If(V.is_VNil(v), BoolVal(False),
            If(V.is_VStr(v), Length(V.s(v)) > 0,
-           If(V.is_VBytes(v), Length(V.by(v)) > 0, BoolVal(True))))))))
+           If(V.is_VBytes(v), Length(V.by(v)) > 0,
+           If(V.is_VObj(v), obj_truthy(V.o(v)), BoolVal(True)))))))))
 
 
 def tup(*xs):
